@@ -224,6 +224,8 @@ def build_world(ctx, k, nsock, kernel_owned=False, decoy_file=False):
         # sockets the kernel itself owns (TIME_WAIT, orphaned FIN_WAIT ...) are all printed with inode 0: distinct sockets, no holder
         socks.append(dict(table="tcp", inode=0, state=6, lport=22, rport=22, utype=1, path=""))
         socks.append(dict(table="tcp", inode=0, state=6, lport=65535, rport=22, utype=1, path=""))
+        # ... and so is a UNIX stream connection still waiting in a listener's backlog (connect() done, accept() not yet)
+        socks.append(dict(table="unix", inode=0, state=7, lport=0, rport=0, utype=1, path="/run/backlog.sock"))
     render_tables(k, socks)
     return socks, holders
 
